@@ -1,11 +1,11 @@
-\* M, seeded fault StoreWide: TLC must reject it
+\* M, quick: reduced instance XLEN = 16, four registers, 16 bytes of memory; one instruction from every initial state
 CONSTANTS
-  XLEN = 8
+  XLEN = 16
   NREG = 4
   MEMN = 16
   Dev = {"StoreWide"}
-  Triples <- TriplesFew
-  MCVals <- ValsFew
+  Triples <- TriplesQuick
+  MCVals <- ValsQuick3
   ImmSel = "few"
   GPats = {}
   GVals = {}
